@@ -432,7 +432,7 @@ func (c *Ctx) c10ExpireAt() {
 					continue
 				}
 				n++
-				if exp == nil || len(exp.Results) != 2 || ent.Fields["E"] != exp.Results[1] {
+				if exp == nil || len(exp.Results) != 2 || p.FieldOf(ent, "E") != exp.Results[1] {
 					r.Bad("R10.3", op, "stored-E", c.Pos(ev.Pos), "the stored E is not the expiry computed by expireAt(ctx)", shortTrace(p))
 					bad = true
 				}
@@ -503,8 +503,8 @@ func (c *Ctx) c10Views() {
 					n++
 					a := pointee(ev.Args[0])
 					for _, f := range []string{"K", "V", "E"} {
-						fv := a.Fields[f]
-						if a.Kind != pw.KAlloc || fv == nil || fv.Kind != pw.KField || fname(fv.Field) != f || fv.Src == nil || fv.Src.Kind != pw.KRangeVal {
+						fv := p.FieldOf(a, f)
+						if (a.Kind != pw.KAlloc && a.Kind != pw.KZero) || fv == nil || fv.Kind != pw.KField || fname(fv.Field) != f || fv.Src == nil || fv.Src.Kind != pw.KRangeVal {
 							r.Bad("R10.5", "shardedMapLegacyWalkerOf.Walk", "copy-"+f, c.Pos(ev.Pos), "the legacy walker must hand out "+f+" of the iterated entry unchanged", shortTrace(p))
 							bad = true
 						}
